@@ -198,6 +198,23 @@ fn check(ctx: &Ctx, m: &ModelGame, label: &str, counting: bool) -> Result<(), Fa
 		let i = (0..w.len().min(bytes.len())).find(|&i| w[i] != bytes[i]).unwrap_or(w.len().min(bytes.len()));
 		return Err(fail("roundtrip", format!(".slp written from the re-imported frames differs at offset {}", i)));
 	}
+	// second generation: exporting the imported frames again gives the same struct
+	if rows % 2 == 0 {
+		let occ2 = port_occupancy(&g2.start);
+		let arr2 = match rt::guard(|| Ok::<_, String>(g2.frames.into_struct_array(version, &occ2))) {
+			rt::Out::Ok(a) => a,
+			rt::Out::Panic(p) => return Err(fail(&format!("export2 panic~{}", rt::panic_site(&p)), format!("exporting the re-imported frames panicked: {}", p))),
+			rt::Out::Err(e) => return Err(fail("export2 err", e)),
+		};
+		if !same_shape(arr2.data_type(), &want) {
+			return Err(fail("schema_second_generation", format!("schema of the second export differs: {}", first_schema_diff(arr2.data_type(), &want))));
+		}
+		let mut av2 = view_arrow(&arr2).map_err(|e| fail("walk2", e))?;
+		if spec::gte(v, (3, 0)) && !spec::gte(v, (3, 7)) && av2.end.is_none() {
+			av2.end = Some(spec::leaves(Kind::FrameEnd).map(|l| (l.path, None)).collect());
+		}
+		diff_views(&av2, &crate::access::view_model(m)).map_err(|e| fail("values_second_generation", format!("second export differs from the history: {}", e)))?;
+	}
 	Ok(())
 }
 
